@@ -45,4 +45,29 @@ structure PhysEq (w w' : World) : Prop where
 /-- total volume of the grid's blocks -/
 def totalVolume (w : World) : Rat := World.sumRat (w.blocklist.map fun b => (w.bk b).volume)
 
+open World in
+/-- the chain of connections MINC creates for one block: fracture → matrix 1 → … → innermost -/
+def mincChain (args : MincArgs) (origVol : Rat) : Nat → Nat → Nat → List Rat → List Con
+  | _, _, _, [] => []
+  | m0, lastblk, base, _ :: r => mincCon args origVol (m0 + 1) lastblk base :: mincChain args origVol (m0 + 1) base (base + 1) r
+
+
+open World in
+/-- **What MINC leaves behind for one processed block** `b` of original volume `V`, in the final
+    state `w'`: `row` (the block's row of the returned index array) holds the positions in the block
+    list of `b` and of its new matrix blocks `base, base+1, …`; `b` has volume `V·f₀` and matrix level
+    `k` has `V·f_k` (`f` the fractions normalised by their sum); the connections `cbase, cbase+1, …`
+    are in the grid and form the chain `b → base → base+1 → …` with area `V·a[k]` and distances
+    `(d[k], d[k+1])` (`mincChain`). -/
+def MincGroup (args : MincArgs) (vf : List Rat) (N0 : Nat) (w' : World) (V : Rat) (b : Nat) (row : List Nat) : Prop :=
+  ∃ base cbase pos0 p,
+    row = pos0 :: List.range' p (vf.drop 1).length ∧
+    w'.blocklist[pos0]? = some b ∧ (∀ k, k < (vf.drop 1).length → w'.blocklist[p + k]? = some (base + k)) ∧
+    (w'.bk b).volume = V * vf.headD 0 ∧
+    (∀ k (hk : k < (vf.drop 1).length), (w'.bk (base + k)).volume = V * (vf.drop 1)[k]) ∧
+    (∀ k, k < (vf.drop 1).length → cbase + k ∈ w'.connectionlist) ∧
+    (∀ k, k < (vf.drop 1).length → w'.cons[cbase + k]? = (mincChain args V 0 b base (vf.drop 1))[k]?) ∧
+    N0 ≤ base ∧ base + (vf.drop 1).length ≤ w'.blks.length ∧ cbase + (vf.drop 1).length ≤ w'.cons.length
+
+
 end Model.Grid
